@@ -49,21 +49,34 @@ def rule_config_class(ctx, repo):
     ok = any(Q.has("self._set($k, $v)", lp, e) for lp, e in Q.loops(u.fn, "kwargs.items()", "($k, $v)")) and \
         u.after(u.calls("self._set"), u.calls("self.check"))[0]
     ctx.check(ok, "C20.precedence", "Config.update", "update overwrites and then validates", "update no longer sets every key and re-checks", u.W())
-    # coercion chain int -> float -> unchanged, only for strings
+    # coercion, decided by evaluation: Config._set is evaluated (engine/tinyexec.py, helper methods followed) on one representative per
+    # input class; the stored value must keep / acquire exactly the documented type: str -> int if it reads as one, else float, else
+    # unchanged; anything that is not a string is stored as given
+    from engine.tinyexec import TinyExec, Self
+    from engine.ordertype import Unsupported
     s = F.method(repo, "Config", "_set", COMMON)
-    fn = s.fn
-    t = [n for n in walk_noscope(fn) if isinstance(n, ast.If) and Q.match("isinstance(val, str)", n.test)]
-    ok = bool(t)
-    if ok:
-        tr = [n for n in t[0].body if isinstance(n, ast.Try)]
-        ok = bool(tr) and Q.match("val = int(val)", tr[0].body[0]) is not None and src(tr[0].handlers[0].type) == "ValueError"
-        if ok:
-            inner = [n for n in tr[0].handlers[0].body if isinstance(n, ast.Try)]
-            ok = bool(inner) and Q.match("val = float(val)", inner[0].body[0]) is not None and \
-                all(isinstance(x, ast.Pass) for x in inner[0].handlers[0].body) and src(inner[0].handlers[0].type) == "ValueError"
-    ok = ok and Q.match("self.__dict__[key] = val", fn.body[-1]) is not None
-    ctx.check(ok, "C20.coercion", "Config._set", "str -> int, else float, else unchanged; non-strings stored as given",
-              "value coercion chain changed (types read back from a file would differ)", s.W())
+    samples = [("12", 12, int), ("-180", -180, int), ("+7", 7, int), ("007", 7, int), ("1.5", 1.5, float), ("1e-3", 1e-3, float), ("-2.", -2.0, float),
+               ("inf", float("inf"), float), ("klu", "klu", str), ("", "", str), ("1,2", "1,2", str), ("0x10", "0x10", str),
+               (3, 3, int), (2.5, 2.5, float), (True, True, bool), (None, None, type(None)), ((0, 1), (0, 1), tuple)]
+    bad, undec = [], None
+    for given, want, wtype in samples:
+        so = Self()
+        try:
+            TinyExec(repo, "Config", COMMON).call("_set", so, "k", given)
+        except Unsupported as ex:
+            undec = str(ex)
+            break
+        except Exception as ex:     # the interpreted code raised
+            bad.append("_set('k', %r) raises %s" % (given, type(ex).__name__))
+            continue
+        got = so.d.get("k", "<not stored>")
+        if type(got) is not wtype or got != want:
+            bad.append("%r is stored as %r (%s), expected %r (%s)" % (given, got, type(got).__name__, want, wtype.__name__))
+    if undec:
+        ctx.undecided("C20.coercion", "Config._set", "evaluator: %s" % undec, s.W())
+    else:
+        ctx.check(not bad, "C20.coercion", "Config._set", "%d input classes: str -> int, else float, else unchanged; non-strings stored as given" % len(samples),
+                  "; ".join(bad[:4]), s.W())
     c = F.method(repo, "Config", "check", COMMON)
     rs = [n for n in walk_noscope(c.fn) if isinstance(n, ast.Raise) and "ValueError" in src(n)]
     t = [n for n in walk_noscope(c.fn) if isinstance(n, ast.If) and Q.match("val not in _alt", n.test)]
@@ -119,8 +132,19 @@ def rule_options(ctx, repo):
     ctx.check(bool(sets) and not bad, "C20.options", "_update_config_object/sections",
               "sections are created iff absent before values are set (any number of options per section, with or without rc file)",
               "; ".join(bad), f.W())
-    ok = Q.has("section = section.strip()", f.fn) and Q.has("key = key.strip()", f.fn) and Q.has("value = value.strip()", f.fn)
-    ctx.check(ok, "C20.options", "_update_config_object/strip", "whitespace stripped", "option parts no longer stripped", f.W())
+    # every argument of parser.set(section, key, value) derives from a .strip() (def-use, any spelling)
+    unstripped = []
+    set_calls = [c for c in calls_in(f.fn) if isinstance(c.func, ast.Attribute) and c.func.attr == "set" and len(c.args) == 3]
+    for c in set_calls:
+        for a_ in c.args:
+            names, stmts = Q.slice_names(f.fn, a_)
+            stripped = any(isinstance(x, ast.Call) and isinstance(x.func, ast.Attribute) and x.func.attr == "strip"
+                           for st in stmts for x in ast.walk(st)) or \
+                any(isinstance(x, ast.Call) and isinstance(x.func, ast.Attribute) and x.func.attr == "strip" for x in ast.walk(a_))
+            if not stripped:
+                unstripped.append(src(a_))
+    ctx.check(bool(set_calls) and not unstripped, "C20.options", "_update_config_object/strip", "section, key and value are stripped before they are stored",
+              "option part(s) %s reach the parser without .strip()" % unstripped, f.W())
     i = F.method(repo, "System", "__init__", SYSTEM)
     a = i.calls("self._update_config_object")
     b = i.calls("self.config.load")
@@ -299,9 +323,17 @@ def rule_roundtrip(ctx, repo, defaults):
               "; ".join(bad[:5]) + (" (+%d more)" % (len(bad) - 5) if len(bad) > 5 else ""), COMMON)
     ctx.count("defaults", n)
     c = F.method(repo, "System", "collect_config", SYSTEM)
-    own = [n for n in walk_noscope(c.fn) if isinstance(n, ast.Assign) and Q.match("config_dict[self.__class__.__name__]", n.targets[0])
+    own = [n for n in walk_noscope(c.fn) if isinstance(n, ast.Assign) and isinstance(n.targets[0], ast.Subscript)
+           and Q.match("self.__class__.__name__", n.targets[0].slice) is not None
            and isinstance(n.value, ast.Call) and dotted(n.value.func) == "self.config.as_dict"]
-    ok = bool(own) and Q.has("$all = OrderedDict(list(self.routines.items()) + list(self.models.items()))", c.fn)
+    # the collection that is iterated for the per-instance sections is built from both the routines and the models (def-use)
+    both = False
+    for lp in [l for l in ast.walk(c.fn) if isinstance(l, ast.For)]:
+        names, stmts = Q.slice_names(c.fn, lp.iter)
+        text = " ".join(src(st) for st in stmts) + " " + src(lp.iter)
+        if "self.routines" in text and "self.models" in text:
+            both = True
+    ok = bool(own) and both
     ctx.check(ok, "C20.save", "System.collect_config", "system + all routines + all models", "saved configuration no longer covers system, routines and models", c.W())
 
 
